@@ -678,25 +678,54 @@ func runScan(c *vh.Ctx, cp *corpus) {
 	s.cf = c.NewCaseFile("scan", scanHeader)
 	s.cf.SetShardSize(c.Pick(120, 300))
 	k := c.Pick(1, 6)
-	s.infos(70 * k)
-	s.headers(50 * k)
-	s.rawAndAdvance(60 * k)
-	s.ids(50 * k)
-	s.addrs(110 * k, cp)
-	s.extracts(60*k, cp)
-	s.diags(150 * k)
-	s.muxes(25 * k)
-	s.extractCbor(40 * k)
-	s.arrayItems(60 * k)
-	s.protos(c.Pick(50, 250))
+	// C02_SCAN=name,name restricts the run to some scanners (development aid)
+	want := func(name string) bool {
+		f := os.Getenv("C02_SCAN")
+		return f == "" || strings.Contains(","+f+",", ","+name+",")
+	}
+	if want("infos") {
+		s.infos(70 * k)
+	}
+	if want("headers") {
+		s.headers(50 * k)
+	}
+	if want("raw") {
+		s.rawAndAdvance(60 * k)
+	}
+	if want("ids") {
+		s.ids(50 * k)
+	}
+	if want("addrs") {
+		s.addrs(110*k, cp)
+	}
+	if want("extracts") {
+		s.extracts(60*k, cp)
+	}
+	if want("diags") {
+		s.diags(150 * k)
+	}
+	if want("muxes") {
+		s.muxes(25 * k)
+	}
+	if want("cbor") {
+		s.extractCbor(40 * k)
+	}
+	if want("items") {
+		s.arrayItems(60 * k)
+	}
+	if want("protos") {
+		s.protos(c.Pick(50, 250))
+	}
 	s.cf.Flush()
 	// the offset walkers: whole blocks, a few hundred bytes to 3 KB each -> small shards
-	main := s.cf
-	s.cf = c.NewCaseFile("walk", scanHeader)
-	s.cf.SetShardSize(c.Pick(30, 60))
-	s.offsets(c.Pick(100, 700), cp)
-	s.cf.Flush()
-	s.cf = main
+	if want("offsets") {
+		main := s.cf
+		s.cf = c.NewCaseFile("walk", scanHeader)
+		s.cf.SetShardSize(c.Pick(30, 60))
+		s.offsets(c.Pick(70, 700), cp)
+		s.cf.Flush()
+		s.cf = main
+	}
 	var parts []string
 	for _, k := range vh.SortedKeys(s.n) {
 		parts = append(parts, fmt.Sprintf("%s %d", k, s.n[k]))
